@@ -397,6 +397,7 @@ def run(ctx, rep):
     rep.floor("C10.Ident constructions derived from another Ident", n_derived, 2)
     scope_discipline(F, rep)
     scope_walk(F, rep)
+    const_flag(F, rep)
 
 
 def scope_discipline(F, rep):
@@ -548,3 +549,108 @@ def scope_walk(F, rep):
                                                                             ("; stops at block scope(s) %s: a name declared outside that block is not seen" % bad) if bad else ""),
                    pc.span, fn=w.path, key="C10.scope-walk|%s|%s" % (mir.short(path), mir.short(pc.callee())))
     rep.floor("C10.scope-walk early exits judged", n_exits, 1)
+
+
+def const_flag(F, rep):
+    """A declaration is marked const exactly when its flags say `const`.  The `is_const` value Parser::assignment hands to the three assignment
+    builders (which call Ident::mark_const on it) is computed from the parsed flags; that piece of Parser::assignment is evaluated abstractly for
+    every flag word 0..7 and for `no flags`, and compared with the `const` bit (read from AssignmentFlag::constant()), on the combinations
+    AssignmentFlag::validate lets through."""
+    import absint
+    from absint import Interp, Variant, Opaque, Int, some, NONE
+    pa = None
+    for f in F.crates["compiler"].fns:
+        if f.path.endswith("assignment::<impl compiler::parser::Parser>::assignment"):
+            pa = f
+    if pa is None:
+        raise AnchorMissing("Parser::assignment")
+    AF = "compiler::ast::assignment::AssignmentFlag"
+    builders = [c for c in pa.calls() if c.callee().endswith(("Parser>::assignment_no_type", "Parser>::assignment_type", "Parser>::assignment_unpack"))]
+    rep.floor("C10.const-flag assignment builders called by Parser::assignment", len(builders), 3)
+    locs = {op_local(c.args[1]) for c in builders if len(c.args) > 1}
+    # the bool handed over may be a copy of the named local
+    roots = set()
+    for l in locs:
+        cur = l
+        for _ in range(4):
+            src = [op_local(rv["use"]) for bb_, si, d, rv, _s in pa.assigns() if d.get("l") == cur and not d.get("p") and "use" in rv and op_local(rv["use"]) is not None]
+            if len(src) == 1:
+                cur = src[0]
+            else:
+                break
+        roots.add(cur)
+    flag_locals = [l for l, ty in enumerate(pa.locals) if ty.replace(" ", "") == "core::option::Option<%s>" % AF and pa.names.get(l)]
+    if len(roots) != 1 or not flag_locals:
+        rep.ob("C10.const-flag", "Parser::assignment computes one is_const value from the parsed flags", "undecided", "is_const locals %s, flags locals %s" % (sorted(roots), flag_locals),
+               pa.span, fn=pa.path, key="C10.const-flag|shape")
+        return
+    cl = roots.pop()
+    fl = flag_locals[0]
+    # where the computation starts: the first block that borrows `flags` on the way to is_const
+    starts = sorted(bi for bi, si, d, rv, _s in pa.assigns() if "ref" in rv and rv["ref"].get("l") == fl and not rv["ref"].get("p"))
+    defs = [c.bb for c in pa.calls() if c.dst and c.dst.get("l") == cl] + [bi for bi, si, d, rv, _s in pa.assigns() if d.get("l") == cl]
+    starts = [b for b in starts if any(db in pa.reachable(b) for db in defs)]
+    if not starts or not defs:
+        rep.ob("C10.const-flag", "Parser::assignment computes is_const from the parsed flags", "undecided", "no borrow of `flags` reaches is_const", pa.span, fn=pa.path,
+               key="C10.const-flag|shape")
+        return
+    doms = pa.dominators()
+    start = min(starts, key=lambda b: len(doms.get(b, ())))
+    # the const bit and the admissible words
+    def eval_fn(path, args):
+        g = F.fn(path)
+        if g is None:
+            raise AnchorMissing(path)
+        it = Interp(F, max_depth=6, max_paths=64)
+        return it.run(g, args), it.exhausted
+    outs, ex = eval_fn("compiler::ast::assignment::AssignmentFlag::constant", [])
+    bit = None
+    for o in outs:
+        if o.kind == "return" and isinstance(o.value, Variant) and o.value.fields and isinstance(o.value.fields[0], Int):
+            bit = o.value.fields[0].v
+    if bit is None:
+        rep.ob("C10.const-flag", "the `const` bit of AssignmentFlag", "undecided", "AssignmentFlag::constant() not read", pa.span, fn=pa.path, key="C10.const-flag|bit")
+        return
+
+    def flagv(k):
+        return Variant(AF, 0, "AssignmentFlag", [Int(k, "u8")])
+    valid = []
+    for k in range(8):
+        outs, ex = eval_fn("compiler::ast::assignment::AssignmentFlag::validate", [flagv(k)])
+        kinds = {o.value.name if (o.kind == "return" and isinstance(o.value, Variant)) else "?" for o in outs}
+        if kinds == {"Ok"}:
+            valid.append(k)
+    bad, undec, rows = [], [], []
+    for k in [None] + list(range(8)):
+        val = NONE if k is None else some(flagv(k))
+
+        def stop(fn_, bb, p, _cl=cl):
+            fr = p.frames.get(p.stack[-1][0], {})
+            if fn_ is pa and _cl in fr and isinstance(fr[_cl], Int):
+                return fr[_cl]
+            return None
+        models = dict(absint.DEFAULT_MODELS)
+
+        def unwrap_or(it_, p_, fid_, fn_, t_, args):
+            a = args[0]
+            if isinstance(a, Variant) and a.adt == "core::option::Option":
+                return a.fields[0] if a.name == "Some" else args[1]
+            return NotImplemented
+        models["core::option::Option::unwrap_or"] = unwrap_or
+        models["core::option::Option::unwrap_or_default"] = lambda it_, p_, fid_, fn_, t_, args: (
+            (args[0].fields[0] if args[0].name == "Some" else absint.FALSE) if isinstance(args[0], Variant) and args[0].adt == "core::option::Option" else NotImplemented)
+        it = Interp(F, models=models, max_depth=8, max_paths=128, stop_at=stop)
+        outs = it.run(pa, [Opaque("input")], init_locals={fl: val}, start_bb=start)
+        got = {bool(o.value.v) if (o.kind == "stop" and isinstance(o.value, Int)) else None for o in outs}
+        want = (k is not None) and bool(k & bit)
+        rows.append("%s->%s" % ("none" if k is None else bin(k), sorted(got, key=str)))
+        if got == {want}:
+            continue
+        if None in got or not got or it.exhausted:
+            undec.append("flags %s: %s" % ("none" if k is None else bin(k), sorted(got, key=str)))
+        elif k is None or k in valid:
+            bad.append("flags %s (%s): is_const is %s" % ("none" if k is None else bin(k), "const bit set" if want else "no const bit", sorted(got)))
+    rep.ob("C10.const-flag", "a declaration is marked const exactly when its flags contain `const` (flag words 0..7 and none; admissible: %s)" % [bin(v) for v in valid],
+           "violated" if bad else ("undecided" if undec else "ok"), "; ".join(bad or undec) or "const bit %s; %s" % (bin(bit), " ".join(rows)), pa.span, fn=pa.path,
+           key="C10.const-flag|is_const")
+    rep.floor("C10.const-flag admissible flag words", len(valid), 4)
